@@ -18,6 +18,7 @@ KANI_ENV = dict(os.environ, CARGO_NET_OFFLINE="true")
 KANI_ENV.pop("RUSTUP_TOOLCHAIN", None)
 KANI_ENV.pop("RUSTFLAGS", None)
 
+PROFILES = ("real", "real320", "full", "model", "model320")
 META_RE = re.compile(r"^\s*//@\s+(?P<props>C\d\d(?:,C\d\d)*)\s+(?P<tier>quick|thorough)(?P<opts>(?:\s+[a-z_]+(?:=[^\s|]+)?)*)\s*\|\s*(?P<desc>.*)$")
 NAME_RE = re.compile(r"(?:\bfn\s+([A-Za-z0-9_]+)\s*\()|(?:^\s*[a-z0-9_]+!\s*\(\s*([A-Za-z0-9_]+)\s*[,)])")
 
@@ -43,7 +44,7 @@ class Harness:
 def discover():
     """Parse //@ metadata lines from /verif/harness/{real,model}/*.rs."""
     out = []
-    for profile in ("real", "model"):
+    for profile in PROFILES:
         for path in sorted(glob.glob(os.path.join(VERIF, "harness", profile, "*.rs"))):
             module = os.path.splitext(os.path.basename(path))[0]
             if module == "mod":
@@ -99,7 +100,7 @@ def target_dir(profile):
 def kani_cmd(crate, profile, names, jobs, timeout_s, json_out, extra=()):
     cmd = ["cargo", "kani", "--manifest-path", os.path.join(crate, "Cargo.toml"),
            "--target-dir", target_dir(profile), "-Z", "stubbing", "-Z", "unstable-options",
-           "--harness-timeout", f"{int(timeout_s)}s", "--exact"]
+           "--harness-timeout", f"{int(timeout_s)}s", "--no-assertion-reach-checks", "--exact"]
     for n in names:
         cmd += ["--harness", n]
     if jobs > 1 and len(names) > 1:
@@ -199,7 +200,7 @@ def concrete_tests(profile, h, timeout_s, mem_gb):
     crate = gen.generate(profile)
     cmd = ["cargo", "kani", "--manifest-path", os.path.join(crate, "Cargo.toml"), "--target-dir", target_dir(profile),
            "-Z", "stubbing", "-Z", "unstable-options", "--harness-timeout", f"{int(timeout_s)}s",
-           "--exact", "--harness", h.full, "-Z", "concrete-playback", "--concrete-playback=print"]
+           "--no-assertion-reach-checks", "--exact", "--harness", h.full, "-Z", "concrete-playback", "--concrete-playback=print"]
     p = subprocess.run(cmd, env=KANI_ENV, stdout=subprocess.PIPE, stderr=subprocess.STDOUT, text=True,
                        preexec_fn=_limits(mem_gb), cwd=crate)
     tests = []
